@@ -11,12 +11,20 @@ def parse(text):
 
 
 def canon(e, with_tail=False):
-    """(tag, sorted attrib, text, [(canon(child), child.tail) ...]).  The tail of
-    the compared root is ignored unless with_tail."""
-    c = (e.tag, tuple(sorted(e.attrib.items())), e.text or '',
-         tuple((canon(ch), ch.tail or '') for ch in e))
+    """(tag, sorted attrib, text, [(canon(child), child.tail) ...]).
+
+    Ignorable layout whitespace is normalised away: a whitespace-only *tail*, and the
+    whitespace-only *text of an element that has children* (indentation), compare equal
+    to nothing.  Text of leaf elements (e.g. <p> </p>) and any tail/text with a
+    non-blank character are compared exactly.  The tail of the compared root is ignored
+    unless with_tail."""
+    def lay(x):
+        return '' if (x is None or not x.strip()) else x
+    kids = tuple((canon(ch), lay(ch.tail)) for ch in e)
+    text = (e.text or '') if not kids else lay(e.text)
+    c = (e.tag, tuple(sorted(e.attrib.items())), text, kids)
     if with_tail:
-        return (c, e.tail or '')
+        return (c, lay(e.tail))
     return c
 
 
